@@ -524,6 +524,11 @@ func qGenSchema(rt *rapid.T, enabled []qKind) []*qTable {
 				} else if (t.Cols[ci].Kind.isString() || t.Cols[ci].Kind == qkVarbin) && rapid.IntRange(0, 5).Draw(rt, "hasprefix") == 0 {
 					pre = rapid.IntRange(1, 3).Draw(rt, "prefix")
 				}
+				if pre > 0 && ci < t.NPK && qNoPrefixOnPK {
+					// known finding C26-prefix-index-on-pk-update (see c26_test.go): excluded by construction
+					qExcludedLits["prefix_index_on_pk_column"]++
+					pre = 0
+				}
 				ix.Cols = append(ix.Cols, ci)
 				ix.Prefix = append(ix.Prefix, pre)
 			}
@@ -641,6 +646,10 @@ func (r qColRef) col() *qCol { return &r.T.Cols[r.CI] }
 // qExcludedLits counts predicate literals replaced because of a grammar exclusion (read and
 // reset by the test once per case).
 var qExcludedLits = map[string]int{}
+
+// qNoPrefixOnPK is set by the test while the finding about prefix indexes over primary-key
+// columns is listed open.
+var qNoPrefixOnPK bool
 
 // qLitFor draws a literal to compare column r with: mostly a value the column holds.
 func qLitFor(rt *rapid.T, r qColRef) string {
